@@ -452,3 +452,71 @@ class SuperProxy:
 
     def __init__(self, selfref, cls):
         self.selfref, self.cls = selfref, cls
+
+
+# ----------------------------------------------------------------------------- binders
+BINDERS = []      # constants that the code currently building a formula is about to bind with a quantifier
+
+
+class binding:
+    """`with binding(k): term = closure(k)`: k will be bound by a quantifier around `term`.  Anything defined while
+    evaluating the closure (a nested prefix-sum function) must depend on k explicitly."""
+
+    def __init__(self, *ks):
+        self.ks = [k for k in ks if is_z3(k)]
+
+    def __enter__(self):
+        BINDERS.extend(self.ks)
+        return self
+
+    def __exit__(self, *a):
+        for _ in self.ks:
+            BINDERS.pop()
+        return False
+
+
+def free_consts(t, _cache={}):
+    """names of the uninterpreted constants occurring in term t"""
+    i = t.get_id()
+    hit = _cache.get(i)
+    if hit is not None and hit[0].eq(t):
+        return hit[1]
+    out, seen, todo = set(), set(), [t]
+    while todo:
+        x = todo.pop()
+        xi = x.get_id()
+        if xi in seen:
+            continue
+        seen.add(xi)
+        if z3.is_quantifier(x):
+            todo.append(x.body())
+        elif z3.is_app(x):
+            if x.num_args() == 0 and x.decl().kind() == z3.Z3_OP_UNINTERPRETED:
+                out.add(x.decl().name())
+            else:
+                todo += x.children()
+    _cache[i] = (t, out)
+    return out
+
+
+def bound_names(t, _cache={}):
+    """names of the variables bound by quantifiers inside t"""
+    i = t.get_id()
+    hit = _cache.get(i)
+    if hit is not None and hit[0].eq(t):
+        return hit[1]
+    out, seen, todo = set(), set(), [t]
+    while todo:
+        x = todo.pop()
+        xi = x.get_id()
+        if xi in seen:
+            continue
+        seen.add(xi)
+        if z3.is_quantifier(x):
+            for q in range(x.num_vars()):
+                out.add(x.var_name(q))
+            todo.append(x.body())
+        elif z3.is_app(x):
+            todo += x.children()
+    _cache[i] = (t, out)
+    return out
